@@ -44,6 +44,9 @@ def gen(tier, seed, index):
         # the 'plain' stratum is spent on broadcast-heavy grammars (values that are stride-0 tensors)
         spec = G.gen_broadcast_spec(rng, allow_inf=rng.random() < 0.3)
         return spec, dict(typed=False, dtype='float32' if f32 else 'float64', forced=['stride0-nonterminals'])
+    if forced == ['many-rules'] and not typed and index % 2 == 0:
+        # several sibling nonterminals under the start rule with one-way dependencies that skip a sibling
+        return G.gen_sibling_dependency_spec(rng), dict(typed=False, dtype='float32' if f32 else 'float64', forced=['sibling-dependencies'])
     spec = G.gen_spec(rng, 'nonrec', forced, max_nodes=mn, max_edges=me, typed=typed,
                       allow_inf=True)
     return spec, dict(typed=typed, dtype='float32' if f32 else 'float64', forced=forced)
